@@ -3,6 +3,7 @@ package main
 import (
 	"fmt"
 	"go/ast"
+	"go/token"
 	"go/types"
 	"sort"
 	"strings"
@@ -80,6 +81,64 @@ func genNondet(w *world) {
 		}
 	}
 	fmt.Fprintf(&b, "def assignerReceiver : String := %s\n\n", leanStr(recv))
+	// what a function can still do differently AFTER it has looked at the environment: error returns
+	// (a different transaction result) and keeper calls (state access)
+	b.WriteString("structure EnvRegion where\n  fn : String\n  errorReturns : List String\n  keeperCalls : List String\nderiving Repr\n\n")
+	b.WriteString("def envRegions : List EnvRegion := [\n")
+	for i, e := range envs {
+		fi := w.byKey[e.fn]
+		var rets, calls []string
+		seenCall := map[string]bool{}
+		recvName := ""
+		if fi.decl.Recv != nil && len(fi.decl.Recv.List) == 1 && len(fi.decl.Recv.List[0].Names) == 1 {
+			recvName = fi.decl.Recv.List[0].Names[0].Name
+		}
+		var readPos token.Pos
+		ast.Inspect(fi.decl.Body, func(n ast.Node) bool {
+			if ce, ok := n.(*ast.CallExpr); ok && src(ce) == e.expr && readPos == 0 {
+				readPos = ce.Pos()
+			}
+			return true
+		})
+		ast.Inspect(fi.decl.Body, func(n ast.Node) bool {
+			if n == nil || n.Pos() < readPos {
+				return true
+			}
+			switch s := n.(type) {
+			case *ast.ReturnStmt:
+				if k := len(s.Results); k > 0 {
+					if id, ok := s.Results[k-1].(*ast.Ident); !ok || id.Name != "nil" {
+						if tv, ok := fi.pkg.TypesInfo.Types[s.Results[k-1]]; ok && tv.Type.String() == "error" {
+							rets = append(rets, src(s))
+						}
+					}
+				}
+			case *ast.CallExpr:
+				if sel, ok := s.Fun.(*ast.SelectorExpr); ok && recvName != "" {
+					root := sel.X
+					for {
+						if inner, ok := root.(*ast.SelectorExpr); ok {
+							root = inner.X
+							continue
+						}
+						break
+					}
+					if id, ok := root.(*ast.Ident); ok && id.Name == recvName && !seenCall[src(s.Fun)] {
+						seenCall[src(s.Fun)] = true
+						calls = append(calls, src(s.Fun))
+					}
+				}
+			}
+			return true
+		})
+		sort.Strings(calls)
+		fmt.Fprintf(&b, "  { fn := %s, errorReturns := %s, keeperCalls := %s }", leanStr(e.fn), leanStrList(rets), leanStrList(calls))
+		if i < len(envs)-1 {
+			b.WriteString(",")
+		}
+		b.WriteString("\n")
+	}
+	b.WriteString("]\n\n")
 	// package-level mutable variables written outside init/constructors are rare; list package-level
 	// vars of map/slice/pointer type in on-path packages for review
 	b.WriteString("end Paloma.Gen.Nondet\n")
@@ -87,10 +146,44 @@ func genNondet(w *world) {
 }
 
 // classifyMapRange recognises order-insensitive loop shapes:
-//   collect-then-sort : body only appends to slices, and every such slice is sorted later in the function
-//   map-to-map        : body only assigns into maps / sets, deletes, or counts
-//   exists-early-return: body is `if … { return <const> }`
-//   other             : anything else (needs a hand-written justification in Lean)
+//
+//	collect-then-sort : body only appends to slices, and every such slice is sorted later in the function
+//	map-to-map        : body only assigns into maps / sets, deletes, or counts
+//	exists-early-return: body is `if … { return <const> }`
+//	other             : anything else (needs a hand-written justification in Lean)
+//
+// filteredAppend: an if statement (no else) whose body consists of self-appends only; records the
+// slices appended to.
+func filteredAppend(s *ast.IfStmt, appended map[string]bool) bool {
+	if s.Else != nil || len(s.Body.List) == 0 {
+		return false
+	}
+	for _, st := range s.Body.List {
+		switch a := st.(type) {
+		case *ast.AssignStmt:
+			ok := false
+			if len(a.Lhs) == 1 && len(a.Rhs) == 1 {
+				if ce, isCall := a.Rhs[0].(*ast.CallExpr); isCall {
+					if id, isId := ce.Fun.(*ast.Ident); isId && id.Name == "append" && len(ce.Args) >= 1 && src(ce.Args[0]) == src(a.Lhs[0]) {
+						ok = true
+						appended[src(a.Lhs[0])] = true
+					}
+				}
+			}
+			if !ok {
+				return false
+			}
+		case *ast.IfStmt:
+			if !filteredAppend(a, appended) {
+				return false
+			}
+		default:
+			return false
+		}
+	}
+	return true
+}
+
 func classifyMapRange(fi *funcInfo, rs *ast.RangeStmt) string {
 	appended := map[string]bool{}
 	onlyAppend, onlyMapWrites, onlyExists := true, true, true
@@ -133,7 +226,10 @@ func classifyMapRange(fi *funcInfo, rs *ast.RangeStmt) string {
 				onlyMapWrites = false
 			}
 		case *ast.IfStmt:
-			onlyAppend = false
+			// `if cond { xs = append(xs, …) }`: a filtered collect is still a collect
+			if !filteredAppend(s, appended) {
+				onlyAppend = false
+			}
 			onlyMapWrites = false
 			ok := s.Else == nil && len(s.Body.List) == 1
 			if ok {
